@@ -212,6 +212,10 @@ static Boolean IncCurrCodeFill(struct sLayoutCtx* pCtx) {
         return True;
     } else if (!IncMaxCodeLen(pCtx, 1)) {
         return False;
+    } else if (pCtx->FullWordSize == 1) {
+        /* nibbles packed into bytes: the room reserved above counts bytes */
+        BAsmCode[pCtx->CurrCodeFill.FullWordCnt] = 0;
+        return True;
     } else {
         WAsmCode[pCtx->CurrCodeFill.FullWordCnt] = 0;
         return True;
